@@ -604,6 +604,22 @@ fn dispatch<C: CI>(op: Op, a: &[&[u8]]) -> R<Vec<Vec<u8>>> {
             agg.verify(&data).map_err(e)?;
             Ok(vec![])
         }
+        Op::CoreSign => {
+            let sk = sk_lenient::<C>(arg(a, 0)?)?;
+            let sig = <C as BlsSignatureCore>::core_sign(&sk.0, arg(a, 1)?, arg(a, 2)?).map_err(e)?;
+            Ok(vec![sig.to_bytes().as_ref().to_vec()])
+        }
+        Op::CoreVerify => {
+            let pk = PublicKey::<C>::try_from(arg(a, 0)?).map_err(e)?;
+            // the signature point through the Basic signature decoder (checked), then handed over bare
+            let mut tagged = vec![0u8];
+            tagged.extend_from_slice(arg(a, 1)?);
+            let sp = match Signature::<C>::try_from(tagged.as_slice()).map_err(e)? {
+                Signature::Basic(p) | Signature::MessageAugmentation(p) | Signature::ProofOfPossession(p) => p,
+            };
+            <C as BlsSignatureCore>::core_verify(pk.0, sp, arg(a, 2)?, arg(a, 3)?).map_err(e)?;
+            Ok(vec![])
+        }
         Op::AggVerifyTrait => {
             // the trait-level entry points take ANY iterator: exact-size, filtered (lower bound 0), generated, chained, flattened
             let kind = *arg(a, 0)?.first().ok_or("kind")?;
@@ -732,7 +748,10 @@ fn dispatch<C: CI>(op: Op, a: &[&[u8]]) -> R<Vec<Vec<u8>>> {
             let pk = PublicKey::<C>::try_from(arg(a, 1)?).map_err(e)?;
             let t = arg(a, 3)?;
             let timeout = if t.is_empty() { None } else { Some(u64_of(t)?) };
-            p.verify(pk, arg(a, 2)?, timeout).map_err(e)?;
+            let msg = arg(a, 2)?;
+            // arguments are decoded: from here to the return the simulator may let time flow with the work done
+            let _w = simtypes::Working::begin();
+            p.verify(pk, msg, timeout).map_err(e)?;
             Ok(vec![])
         }
         Op::SignCrypt => {
